@@ -39,7 +39,7 @@ PROPS = {
               "No explored group with insufficient pooled fees was accepted; no explored block claiming more than min(percent x fees + bonus, fee-sink balance - min balance), or a payout for a missing proposer, or wrong FeesCollected/Bonus, validated; no honest block exceeded the reference bound (both regimes of the bound reached).",
               "DESIGN.md §4 C24"),
     "C26": _p("one evaluation = one seeded history of 20-140 blocks in which the proposer of every block draws its upgrade vote (propose one of two extra registered versions with a drawn delay / approve / nothing; per-proposal approval rate drawn so that proposals both pass and fail) under UpgradeVoteRounds=5, UpgradeThreshold=3, wait rounds [0..5] resp. [2..6]; ledger crashes/reloads in between; "
-              "every committed header's UpgradeState is compared with a reference state machine written from the header comments, protocol changes are checked against the announced switch round and an independent approval count, tampered headers (second proposal, early/late/foreign switch, approvals +-1, delay outside the range, NextProtocol without proposal, approval without proposal / after the deadline, failed proposal kept) must be rejected by Ledger.Validate; after a switch a 17-member group (legal only under the new version) is submitted; "
+              "every committed header's UpgradeState is compared with a reference state machine written from the header comments, protocol changes are checked against the announced switch round and an independent approval count, tampered headers (second proposal, early/late/foreign switch, approvals +-1, delay outside the range, NextProtocol without proposal, approval without proposal / after the deadline, failed proposal kept) must be rejected by Ledger.Validate; 16-member groups (legal under every version but v2, whose MaxTxGroupSize is 15) are submitted and must be refused exactly while v2 is in force; "
               "non-trivial = >=1 proposal reached its vote deadline (passed or failed) AND >=1 tampered header judged; distinct = distinct event-log digest",
               "deterministic simulation over sequences of per-block upgrade votes; reference upgrade state machine; Byzantine-proposer header tampering",
               "In every explored vote sequence the protocol changed only at the announced switch round of a proposal with >= threshold approvals inside its vote window, at most one proposal was pending, every committed header matched the reference machine and every explored rule-breaking header was rejected.",
